@@ -11,7 +11,10 @@ import (
 	"sync"
 	"time"
 
+	"context"
+
 	"github.com/btcsuite/btcd/btcec/v2"
+	"github.com/lightninglabs/lndclient"
 	"github.com/lightninglabs/pool/account/watcher"
 	"github.com/lightningnetwork/lnd/chainntnfs"
 )
@@ -84,9 +87,25 @@ func runC09(r *Run) {
 		hd.keys[string(keys[i].SerializeCompressed())] = i
 	}
 
-	// exec runs one op list on a fresh real watcher.
-	exec := func(opsIn []string) {
-		w := watcher.NewExpiryWatcher(hd)
+	// exec runs one op list on a fresh real watcher: either the bare
+	// expiryWatcher, or (viaCtrl) the watcher.Controller fed by a fake chain
+	// notifier, i.e. with the real expiryHandler goroutine delivering blocks.
+	exec := func(opsIn []string, viaCtrl bool) {
+		var w c09Target
+		if viaCtrl {
+			r.Count("case/via-controller")
+			fn := &c09Notifier{blocks: make(chan int32), errs: make(chan error)}
+			ctrl := watcher.NewController(&watcher.CtrlConfig{
+				ChainNotifier: fn, Handlers: hd,
+			})
+			if err := ctrl.Start(); err != nil {
+				panic(err)
+			}
+			defer ctrl.Stop()
+			w = &c09Ctrl{ctrl: ctrl, n: fn}
+		} else {
+			w = c09Direct{watcher.NewExpiryWatcher(hd)}
+		}
 		r.Emit("C09 reset", "ok")
 		var (
 			hist      []string
@@ -109,7 +128,7 @@ func runC09(r *Run) {
 				if _, ok := ghost[k]; ok {
 					rereg = true
 				}
-				w.AddAccountExpiration(keys[k], h)
+				w.Add(keys[k], h)
 				if h <= best {
 					// a hand-off goroutine should have been
 					// spawned: wait for it (bounded).
@@ -122,7 +141,7 @@ func runC09(r *Run) {
 			} else {
 				fmt.Sscanf(op, "block %d", &b)
 				r.Count("op/block")
-				w.NewBlock(b)
+				w.Block(b)
 				best = b
 			}
 			runtime.Gosched()
@@ -197,7 +216,8 @@ func runC09(r *Run) {
 			}
 		}
 		r.Count("case/fixed")
-		exec(c)
+		exec(c, false)
+		exec(c, true)
 	}
 	if r.ReplayFile != "" {
 		return
@@ -244,7 +264,7 @@ func runC09(r *Run) {
 				best = next
 			}
 		}
-		exec(ops)
+		exec(ops, c%8 == 7)
 	}
 	// stray late hand-offs would indicate a missed wait
 	time.Sleep(5 * time.Millisecond)
@@ -252,4 +272,53 @@ func runC09(r *Run) {
 		r.Notes = append(r.Notes, fmt.Sprintf("stray late hand-offs: %v", s))
 		r.Violate("stray hand-off after the end of the run", "C09/stray", s)
 	}
+}
+
+// c09Target abstracts over the two ways the harness reaches the real watcher.
+type c09Target interface {
+	Add(k *btcec.PublicKey, h uint32)
+	Block(b uint32)
+}
+
+type c09Direct struct {
+	w interface {
+		NewBlock(uint32)
+		AddAccountExpiration(*btcec.PublicKey, uint32)
+	}
+}
+
+func (d c09Direct) Add(k *btcec.PublicKey, h uint32) { d.w.AddAccountExpiration(k, h) }
+func (d c09Direct) Block(b uint32)                   { d.w.NewBlock(b) }
+
+// c09Notifier is a fake lndclient.ChainNotifierClient that only serves block
+// epochs, over an unbuffered channel.
+type c09Notifier struct {
+	lndclient.ChainNotifierClient
+	blocks chan int32
+	errs   chan error
+}
+
+func (n *c09Notifier) RegisterBlockEpochNtfn(context.Context) (chan int32,
+	chan error, error) {
+
+	return n.blocks, n.errs, nil
+}
+
+type c09Ctrl struct {
+	ctrl interface {
+		WatchAccountExpiration(*btcec.PublicKey, uint32)
+	}
+	n *c09Notifier
+}
+
+func (c *c09Ctrl) Add(k *btcec.PublicKey, h uint32) { c.ctrl.WatchAccountExpiration(k, h) }
+
+// Block delivers the block to the controller's expiryHandler goroutine. The
+// channel is unbuffered and the handler only receives again after NewBlock
+// returned, so once the SECOND send of the same height completes the first one
+// has been fully processed (a repeated block is a no-op for a correct watcher;
+// if it is not, the extra notifications show up as a mismatch).
+func (c *c09Ctrl) Block(b uint32) {
+	c.n.blocks <- int32(b)
+	c.n.blocks <- int32(b)
 }
